@@ -484,6 +484,7 @@ func indexTop(s, op string) int {
 // Evaluation
 
 type specEnv struct {
+	goal    bool   // the expression is being proved (not assumed): existential spec forms need a witness from the path
 	into    *State // receives memory-model side facts about loaded references (nil: none)
 	st      *State
 	old     *State
@@ -1366,17 +1367,17 @@ func (e *Exec) evalIsJoin(n *ast.CallExpr, env *specEnv) (SV, error) {
 	if err != nil {
 		return SV{}, err
 	}
-	// witness array: either the one recorded for r (goal side) or a fresh one (assumption side)
-	var arr Term
-	var extra []Term
-	if jf, ok := env.st.joins[r.L[0].S]; ok {
-		// r = join(view(jf.Arr, jf.Off, jf.Len), jf.Sep) holds by the assumed contract of strings.Join
-		arr = Term{fmt.Sprintf("(lambda ((i!j Int)) (select %s (+ %s i!j)))", jf.Arr.S, jf.Off.S), ArrSort(SInt, SString)}
-		_ = arr
-		pointwise := Term{fmt.Sprintf("(forall ((%s Int)) (=> (and (<= 0 %s) (< %s %s)) (= (select %s %s) %s)))",
-			q, q, q, cnt.L[0].S, jf.Arr.S, CellIdx(jf.Off, Term{q, SInt}).S, el.L[0].S), SBool}
-		extra = append(extra, Eq(jf.Len, cnt.L[0]), Eq(jf.Sep, sep.L[0]), pointwise)
-		return pureSV(And(extra...)), nil
+	if env.goal {
+		// proved against the recorded strings.Join calls of this path: r is the result of one of them
+		// (r = join(view(arr, off, len), sep) by the assumed contract of strings.Join), whose element
+		// sequence is pointwise the specified one
+		var alts []Term
+		for res, jf := range env.st.joins {
+			pointwise := Term{fmt.Sprintf("(forall ((%s Int)) (=> (and (<= 0 %s) (< %s %s)) (= (select %s %s) %s)))",
+				q, q, q, cnt.L[0].S, jf.Arr.S, CellIdx(jf.Off, Term{q, SInt}).S, el.L[0].S), SBool}
+			alts = append(alts, And(Eq(r.L[0], Term{res, SString}), Eq(jf.Len, cnt.L[0]), Eq(jf.Sep, sep.L[0]), pointwise))
+		}
+		return pureSV(Or(alts...)), nil
 	}
 	w := e.ctx.fresh("joinw", ArrSort(SInt, SString))
 	pointwise := Term{fmt.Sprintf("(forall ((%s Int)) (=> (and (<= 0 %s) (< %s %s)) (= (select %s %s) %s)))",
